@@ -21,6 +21,7 @@ import (
 	"fmt"
 	"os"
 	"regexp"
+	"sync"
 	"unsafe"
 
 	"github.com/xujiajun/utils/strconv2"
@@ -156,6 +157,10 @@ func NewTree() *BPTree {
 }
 
 var queue *Node
+
+// queueMu serializes WriteNodes: the traversal queue above is shared by every tree of the
+// process, so two databases persisting index nodes at the same time would mix their nodes.
+var queueMu sync.Mutex
 
 func enqueue(node *Node) {
 	var c *Node
@@ -323,6 +328,9 @@ func (t *BPTree) WriteNodes(rwMode RWMode, syncEnable bool, flag int) error {
 	if err != nil {
 		return err
 	}
+
+	queueMu.Lock()
+	defer queueMu.Unlock()
 
 	queue = nil
 
